@@ -52,7 +52,7 @@ class Proj:
     def exp_vol(self, x):
         return float(x * self.inst.vol_store_scale())
 
-    def well_diff(self, container, spec_well, k=1, check_vol=True):
+    def well_diff(self, container, spec_well, k=1, check_vol=True, slack=None):
         """compare an impl container with a specified well {"c": {s: Fraction}, "vol": Fraction}.
         Returns None when equal within tolerance, else a short description."""
         w = self.well(container)
@@ -61,14 +61,14 @@ class Proj:
         for s, x in spec_well["c"].items():
             e = self.exp_amount(s, x)
             got = w["c"].get(s, 0.0)
-            if not self.close(got, e, k, float(self.inst.amount_store_scale(s))):
+            if not self.close(got, e, k, float(self.inst.amount_store_scale(s))) and abs(got - e) > (slack or {}).get(s, 0.0):
                 return f"amount[{s}] = {got!r}, specified {e!r}"
         for s in w["c"]:
             if s not in spec_well["c"] and abs(w["c"][s]) > self.tol(0, k):
                 return f"amount[{s}] = {w['c'][s]!r}, specified absent"
         if check_vol:
             e = self.exp_vol(spec_well["vol"])
-            if not self.close(w["vol"], e, k, float(self.inst.vol_store_scale())):
+            if not self.close(w["vol"], e, k, float(self.inst.vol_store_scale())) and abs(w["vol"] - e) > (slack or {}).get("vol", 0.0):
                 return f"volume = {w['vol']!r}, specified {e!r}"
         return None
 
